@@ -27,14 +27,15 @@ where
 /-! ## Jacobi (DLMF 18.9.1–2; `P_0 = 1`, `P_1` from 18.5.7) -/
 
 /-- `recurrence_abc n α β`, general branch: `P_{n+1} = (A_n x + B_n) P_n − C_n P_{n−1}` -/
-def abc (n : Nat) (α β : K) : K × K × K :=
-  let nn : K := nat n
+def abcK (nn α β : K) : K × K × K :=
   let two : K := nat 2
   let s := two * nn + α + β
   let A := ((s + nat 1) * (s + two)) / (two * (nn + nat 1) * (nn + α + β + nat 1))
   let B := ((α * α - β * β) * (s + nat 1)) / (two * (nn + nat 1) * (nn + α + β + nat 1) * s)
   let C := ((nn + α) * (nn + β) * (s + two)) / ((nn + nat 1) * (nn + α + β + nat 1) * s)
   (A, B, C)
+
+def abc (n : Nat) (α β : K) : K × K × K := abcK (nat n) α β
 
 /-- the `n = 0`, `α+β ∈ {0,−1}` branch of `recurrence_abc` (removable singularity of the general form) -/
 def abc0 (α β : K) : K × K × K :=
@@ -123,27 +124,30 @@ def qbfsH (k : Nat) (fk : K) : K := -(nat (k+2) * nat (k+1)) / (nat 2 * fk)
 def qbfsFG (sqrt : K → K) : Nat → K × K × K
   | 0 => (nat 2, sqrt (nat 19) / nat 2, Num.ofFrac (-1) 2)
   | k+1 =>
-    let (fk, fk1, gk) := qbfsFG sqrt k
-    let hk := qbfsH k fk
-    let gk1 := -(nat 1 + gk * hk) / fk1
+    let s := qbfsFG sqrt k        -- (f_k, f_{k+1}, g_k)
+    let hk := qbfsH k s.1
+    let gk1 := -(nat 1 + s.2.2 * hk) / s.2.1
     -- f_{k+2} = sqrt((k+2)(k+3) + 3 − g_{k+1}² − h_k²)
-    let fk2 := sqrt (nat (k+2) * nat (k+3) + nat 3 - gk1 * gk1 - hk * hk)
-    (fk1, fk2, gk1)
+    (s.2.1, sqrt (nat (k+2) * nat (k+3) + nat 3 - gk1 * gk1 - hk * hk), gk1)
 
 def qbfsF (sqrt : K → K) (n : Nat) : K := (qbfsFG sqrt n).1
 def qbfsG (sqrt : K → K) (n : Nat) : K := (qbfsFG sqrt n).2.2
+/-- `f_qbfs(n)`, `g_qbfs(n)`, `h_qbfs(n)` with Python `int` arguments -/
+def qbfsFi (sqrt : K → K) (n : Int) : K := qbfsF sqrt n.toNat
+def qbfsGi (sqrt : K → K) (n : Int) : K := qbfsG sqrt n.toNat
+def qbfsHi (sqrt : K → K) (n : Int) : K := qbfsH n.toNat (qbfsF sqrt n.toNat)
 
 /-- `(P_n, P_{n+1}, Q_n, Q_{n+1})` in `ρ = x²`: `P_{n+1} = (2−4ρ)P_n − P_{n−1}`,
     `Q_{n+1} = (P_{n+1} − g_n Q_n − h_{n−1} Q_{n−1}) / f_{n+1}` -/
 def qbfsPQ (sqrt : K → K) (rho : K) : Nat → K × K × K × K
   | 0 => (nat 2, nat 6 - nat 8 * rho, nat 1, nat 1 / sqrt (nat 19) * (nat 13 - nat 16 * rho))
   | n+1 =>
-    let (p0, p1, q0, q1) := qbfsPQ sqrt rho n
-    let p2 := (nat 2 - nat 4 * rho) * p1 - p0
+    let s := qbfsPQ sqrt rho n     -- (P_n, P_{n+1}, Q_n, Q_{n+1})
+    let p2 := (nat 2 - nat 4 * rho) * s.2.1 - s.1
     let g := qbfsG sqrt (n+1)
     let h := qbfsH n (qbfsF sqrt n)
     let f := qbfsF sqrt (n+2)
-    (p1, p2, q1, (p2 - g * q1 - h * q0) * (nat 1 / f))
+    (s.2.1, p2, s.2.2.2, (p2 - g * s.2.2.2 - h * s.2.2.1) * (nat 1 / f))
 
 def qbfs (sqrt : K → K) (n : Nat) (x : K) : K :=
   let rho := x * x
